@@ -7,6 +7,12 @@ props = [json.loads(l)["id"] for l in open(os.path.join(V, "properties.jsonl"))]
 TRUST = "TLC and the JVM; rustc; the Rust harness' recording code (events are what the real API returned); the pure-TLA+ number library spec/lib (unit-tested by TLC against Python integers)"
 
 CHECKS = {
+ "C03": dict(
+    technique="TLA+ bounds contract (Bounds.tla, documented table in Types.tla); TLC proves the contract on a lattice model; TLC trace validation of clamp / clamp_assign / slice / is_within_bounds / from_color / try_from_color events with exact dyadic arithmetic",
+    category="model_checking",
+    text="MC_Bounds proves Within(Clamp(c)), idempotence and identity-on-in-bounds exhaustively on a lattice for every component kind and for the HWB coupling in exact rational arithmetic. Every real API result on lattices that put each component independently far below / just below / inside / just above / far above its range (19 colour types, f32 and f64, plain and Alpha, slices; 18 conversion pairs through the unclamped, clamping and checked APIs) is judged by TLC against the model, bit-exactly wherever the contract is a selection and with a one-rounding allowance where it divides or adds; the min/max accessors are compared with the documented table.",
+    ref="DESIGN.md section 4 C03",
+    note=TRUST + "; documented bounds table in spec/Types.tla (Lch::max_chroma documented as advisory, Okhsv's documented 1e-6 slack); Alpha<C,T>::is_within_bounds cannot be instantiated for float T on the pinned tree (its where-clause asks T: IsWithinBounds), so the Alpha within-flag is composed from the colour's flag and the alpha range"),
  "C13": dict(
     technique="TLA+ guard stack machine over symbolic conversion terms (InPlace.tla); TLC enumerates all guard programs, replayed on real buffers; TLC trace validation (in-place arrays bit-identical to the term evaluated out of place)",
     category="model_checking",
